@@ -1,10 +1,10 @@
 package main
 
 import (
-	"math"
 	"context"
 	"encoding/json"
 	"fmt"
+	"math"
 	"reflect"
 	"strconv"
 )
